@@ -57,6 +57,18 @@ theorem src_clouds_prepare_each (nL nW : Nat) (P : Nat → α) (p0 inf : α) (l 
   unfold Gen.SrcC19.clouds_prepare_each cloudSigma
   by_cases h : p0 ≤ P l <;> simp [h, Ext.toCarrier]
 
+/-- what the suspended `SimpleCloudsContribution.prepare_each` has PUBLISHED in `self.sigma_xsec` at its yield — the array
+    `contribute` reads when `model_full_contrib` re-runs `path_integral` for the 'Clouds' component — IS the yielded deck
+    (on the pinned tree the generator stored the deck in `self._contrib` only and `sigma_xsec` kept the deck of the last
+    `prepare()`: repaired in /repo, DESIGN §6) -/
+theorem src_clouds_published (nL nW : Nat) (P : Nat → α) (p0 inf : α) :
+    Gen.SrcC19.clouds_prepare_each_published nW P inf nL p0 = Gen.SrcC19.clouds_prepare_each nW P inf nL p0 := rfl
+
+/-- … hence the deck the component route integrates is the documented one, at every layer and wavenumber -/
+theorem src_clouds_published_deck (nL nW : Nat) (P : Nat → α) (p0 inf : α) (l wn : Nat) :
+    Gen.SrcC19.clouds_prepare_each_published nW P inf nL p0 l wn = Ext.toCarrier inf (cloudSigma P p0 l) := by
+  rw [src_clouds_published]; exact src_clouds_prepare_each nL nW P p0 inf l wn
+
 /-- `SimpleCloudsContribution.contribute`: `tau[layer] += self.sigma_xsec[layer, :]` — the cloud adds the opacity of its
     own layer only, to the whole row (kind `layerOnly` of `Transmission.addContrib`) -/
 theorem src_clouds_contribute (n l nL nW : Nat) (sigma : Nat → Nat → α) (dens path : Nat → α) (tau : Nat → Nat → α) :
